@@ -144,7 +144,9 @@ func (r Registry) resolveImportConflict(a, b *Package, lvl int) {
 		// again for conflicts and resolve them as well. Since the name for
 		// this package would also get set in the recursive function call, skip
 		// setting the alias after it.
-		if conflict, ok := r.searchImport(name); ok && conflict != p {
+		// b is renamed by this very loop right after a, so a name that is only
+		// taken by b (under its old qualifier) is free for a.
+		if conflict, ok := r.searchImport(name); ok && conflict != p && !(p == a && conflict == b) {
 			r.resolveImportConflict(p, conflict, lvl+1)
 			continue
 		}
